@@ -90,7 +90,8 @@ func Round9Families() []OutsideAtom {
 	addIfc("pointer_receiver_struct", "type P_ID struct {\n\tv uint64\n}\n\nfunc (p *P_ID) get() uint64 {\n\tp.v = p.v + 1\n\treturn p.v\n}\n\nfunc ID_fn(a uint64) uint64 {\n\tp := &P_ID{v: a}\n\treturn use_ID(p) + p.v\n}")
 	addIfc("method_with_effect_called_once", "type C_ID struct {\n\tq *uint64\n}\n\nfunc (c C_ID) get() uint64 {\n\t*c.q = *c.q + 1\n\treturn *c.q\n}\n\nfunc twice_ID(i I_ID) uint64 {\n\treturn i.get()*10 + i.get()\n}\n\nfunc ID_fn(a uint64) uint64 {\n\tq := new(uint64)\n\t*q = a % 50\n\tc := C_ID{q: q}\n\treturn twice_ID(c)*100 + *q\n}")
 	addIfc("method_with_effect_never_called", "type C_ID struct {\n\tq *uint64\n}\n\nfunc (c C_ID) get() uint64 {\n\t*c.q = *c.q + 1\n\treturn *c.q\n}\n\nfunc never_ID(i I_ID, k uint64) uint64 {\n\tif k > 1000000 {\n\t\treturn i.get()\n\t}\n\treturn k\n}\n\nfunc ID_fn(a uint64) uint64 {\n\tq := new(uint64)\n\t*q = a % 50\n\tc := C_ID{q: q}\n\treturn never_ID(c, 3)*100 + *q\n}")
-	addIfc("compare_with_struct", "func same_ID(i I_ID, s S_ID) bool {\n\treturn i == s\n}\n\nfunc ID_fn(a uint64) uint64 {\n\ts := S_ID{v: a}\n\tif a > 1 {\n\t\treturn 5\n\t}\n\treturn use_ID(s)\n}")
+	addIfc("compare_with_struct", "func same_ID(i I_ID, s S_ID) bool {\n\treturn i == s\n}\n\nfunc ID_fn(a uint64) uint64 {\n\ts := S_ID{v: a}\n\tif same_ID(s, s) {\n\t\treturn 5\n\t}\n\treturn use_ID(s)\n}")
+	addIfc("compare_with_struct_unequal", "func differ_ID(i I_ID, s S_ID) bool {\n\treturn i != s\n}\n\nfunc ID_fn(a uint64) uint64 {\n\ts := S_ID{v: a}\n\tt := S_ID{v: a + 1}\n\tif differ_ID(s, t) {\n\t\treturn 5\n\t}\n\treturn use_ID(s)\n}")
 
 	// --- logging calls: what their arguments do, what is done with their results
 	add("log_fmt_println_plain", "fmt.Println(\"x is\", x, len(s), uint32(x))\n\tx += 1", false, "fmt")
